@@ -151,6 +151,14 @@ fn client_check(
         client.at_serial.clear();
     }
     client.session = st.session.clone();
+    // within a session the serial a client has seen never comes back
+    if let Some(max_held) = client.at_serial.keys().next_back() {
+        if *max_held > st.serial {
+            out.issues.push(("serial-went-backwards".into(), format!(
+                "{where_}: the client has held serial {max_held} of this \
+                 session, the notification now says {}", st.serial)));
+        }
+    }
     // every earlier serial the client holds
     for (s, content) in client.at_serial.iter() {
         if *s >= st.serial { continue }
@@ -491,11 +499,17 @@ fn history(r: &mut Report, args: &Args, idx: u64, seed: u64) {
     // (every third history: the writes of an explicit session reset are cut
     // instead; nothing is staged then, so the content stays what it was)
     let final_reset = idx % 3 == 2;
+    // ... and every third one cuts the writes of the snapshot job (a
+    // snapshot of the content log followed by the removal of the change
+    // sets it covers): nothing may be lost, no serial may come back
+    let final_snapshots = idx % 3 == 1;
     r.distinct("final_operation", if final_reset { "session-reset" }
-                                  else { "update" });
+        else if final_snapshots { "snapshot-job" } else { "update" });
     if final_reset {
         truth.reset_expected = true;
         steps.push(json!("session_reset (cut)"));
+    } else if final_snapshots {
+        steps.push(json!("snapshot job (cut)"));
     } else {
         match srv.publish_random(&mut rng) {
             Ok(d) => steps.push(d),
@@ -510,6 +524,21 @@ fn history(r: &mut Report, args: &Args, idx: u64, seed: u64) {
         if final_reset {
             srv.w.krill.repo_manager().rrdp_session_reset()
                 .map_err(|e| e.to_string())
+        } else if final_snapshots {
+            srv.w.krill.tasks().schedule(
+                krill::server::mq::Task::UpdateSnapshots,
+                krill::server::mq::now()
+            ).map_err(|e| e.to_string())?;
+            let key = srv.w.pending().into_iter()
+                .find(|p| p.1.contains("snapshot")).map(|p| p.2)
+                .ok_or_else(|| "snapshot task not pending".to_string())?;
+            match srv.w.step_directed(&key) {
+                Some(run) => match run.fatal() {
+                    Some(f) => Err(f),
+                    None => Ok(()),
+                },
+                None => Err("snapshot task could not be claimed".into()),
+            }
         } else { srv.update() }
     };
     wait_interval(&ret);
@@ -572,6 +601,26 @@ fn history(r: &mut Report, args: &Args, idx: u64, seed: u64) {
                 hooks::restore_dir(&pre.join("repo"), &repo);
             }
             let w2 = World::open_raw(cfg.clone());
+            if realisation == "crash" {
+                // the server's own state is never behind what it served
+                if let (Ok(disk), Ok(stats)) = (
+                    rrdpview::read_rrdp(&repo),
+                    w2.krill.repo_manager().repo_stats()
+                ) {
+                    r.eval();
+                    if disk.session == stats.session.to_string()
+                        && stats.serial < disk.serial
+                    {
+                        r.violation("publication-state-behind-served-rrdp@crash",
+                            &format!("crash before mutation {} ({label}): the \
+                                notification on disk is at serial {}, the \
+                                server loads at serial {}", m.n, disk.serial,
+                                stats.serial),
+                            wit(&steps, json!({"cut": m.n, "label": label})));
+                        return
+                    }
+                }
+            }
             let mut srv2 = Server {
                 w: w2, publishers: model_before.keys().cloned().collect(),
                 model: model_before.clone(), base: base.clone(),
